@@ -19,9 +19,10 @@ type Rec struct {
 	Seq       int // position in the execution's probe log
 	T         int64
 	Thread    int
-	Creator   int // the thread that spawned Thread
-	ThreadSeq int // position of Thread in the order of all spawns
-	Spawned   int // threads spawned so far when this record was made
+	Creator   int  // the thread that spawned Thread
+	ThreadSeq int  // position of Thread in the order of all spawns
+	Spawned   int  // threads spawned so far when this record was made
+	CtxDone   bool // exit records: the execution's context was done when the layer returned
 	Exec      failsafe.Execution[int]
 	// exit only
 	Res             *common.PolicyResult[int]
@@ -87,6 +88,9 @@ func (env *Env) recExit(layer, app int, exec failsafe.Execution[int], r *common.
 	rec := &Rec{Layer: layer, App: app, Seq: env.seq, T: vrt.Elapsed(), Thread: vrt.ThreadID(), Creator: vrt.ThreadCreator(vrt.ThreadID()), ThreadSeq: vrt.ThreadSpawnSeq(vrt.ThreadID()), Spawned: vrt.SpawnCount(), Exec: exec, Res: r}
 	if env.ProbeStats {
 		rec.Attempts, rec.Execs, rec.Retries, rec.Hedges, rec.IsHedge = exec.Attempts(), exec.Executions(), exec.Retries(), exec.Hedges(), exec.IsHedge()
+	}
+	if ctx := exec.Context(); ctx != nil && ctx.Err() != nil {
+		rec.CtxDone = true
 	}
 	env.Recs = append(env.Recs, rec)
 	env.openApps--
